@@ -203,6 +203,13 @@ func (fix *Autofix) InsertBelow(text string) {
 		return
 	}
 
+	// If the line is the last line of the file and does not end with a
+	// newline, it must not be joined with the inserted line.
+	if n := len(fix.texts); n > 0 && len(fix.below) == 0 &&
+		fix.texts[n-1] != "" && !hasSuffix(fix.texts[n-1], "\n") {
+		fix.texts[n-1] += "\n"
+	}
+
 	fix.below = append(fix.below, text+"\n")
 	fix.Describef(len(fix.line.raw)-1, "Inserting a line %q below this line.", text)
 }
